@@ -663,6 +663,13 @@ class Est:
         self.floor = floor
 
 
+class KeyFn:
+    """A key function that reads one attribute of its argument."""
+
+    def __init__(self, attr: str):
+        self.attr = attr
+
+
 class Bisect:
     def __init__(self, key: "Num"):
         self.key = key
@@ -846,6 +853,13 @@ class Sym:
         self.clsname = cls.name if cls else None
         self.functions = {n.name: n for n in (module.body if module else [])
                           if isinstance(n, (ast.FunctionDef, ast.AsyncFunctionDef))}
+        self.constants = {}  # module-level `NAME = <expr>` assigned exactly once
+        for n in (module.body if module else []):
+            if isinstance(n, (ast.Assign, ast.AnnAssign)) and n.value is not None:
+                for t in (n.targets if isinstance(n, ast.Assign) else [n.target]):
+                    if isinstance(t, ast.Name):
+                        self.constants[t.id] = None if t.id in self.constants else n.value
+        self.constants = {k: v for k, v in self.constants.items() if v is not None}
         self.no_inline = set(no_inline)
         self.optobjs = optobjs or {}  # Obj path -> Bool term "is None"
         self.watch = set(watch)
@@ -1029,6 +1043,9 @@ class Sym:
             v = self.ev(n.value, env)
             env[n.target.id] = v
             return v
+        if isinstance(n, ast.Lambda) or (isinstance(n, ast.Call) and ast.unparse(n.func) in ("attrgetter", "operator.attrgetter")):
+            k = self.key_of(n, env)
+            return KeyFn(k) if k is not None else Opaque(src[:40])
         if isinstance(n, ast.Name):
             if n.id in env:
                 return env[n.id]
@@ -1157,7 +1174,9 @@ class Sym:
                 if isinstance(v, Num) and v.ty == "Int" and v.term == self.leaves.get("<loop-time>", Num(None, "")).term:
                     return v  # a loop time, already integer µs
                 if isinstance(v, Num) and v.ty in ("Unk", "Rat") and self.is_estimate(v.term):
-                    return Est(0)  # timedelta(seconds=(now - sampling_start).total_seconds() / received_samples)
+                    # timedelta(seconds=(now - sampling_start).total_seconds() / received_samples): computed through floats,
+                    # an input `est` of the translation (clamps applied to it are ordinary comparisons)
+                    return Num(V("est"), "Int")
             unit = {"days": 86400_000_000, "hours": 3600_000_000, "minutes": 60_000_000, "seconds": 1_000_000,
                     "milliseconds": 1000, "microseconds": 1}
             if not n.args and kw and all(k in unit and isinstance(x, ast.Constant) and isinstance(x.value, int)
@@ -1201,7 +1220,7 @@ class Sym:
             buf = self.ev(n.args[0], env) if n.args else None
             key = kw.get("key")
             if not (len(n.args) == 2 and isinstance(buf, Obj) and buf.path == "self._buffer" and set(kw) == {"key"}
-                    and self.is_timestamp_key(key)):
+                    and self.is_timestamp_key(key, env)):
                 raise Unsupported(f"not bisect(self._buffer, <key>, key=lambda s: s.timestamp): {src[:80]}")
             k = self.ev(n.args[1], env)
             if not (isinstance(k, Num) and k.ty == "Int"):
@@ -1239,12 +1258,52 @@ class Sym:
         return Opaque(src)
 
     @staticmethod
-    def is_timestamp_key(key) -> bool:  # type: ignore[no-untyped-def]
-        if isinstance(key, ast.Lambda) and len(key.args.args) == 1 and isinstance(key.body, ast.Attribute) \
-                and isinstance(key.body.value, ast.Name) and key.body.value.id == key.args.args[0].arg \
-                and key.body.attr == "timestamp":
-            return True
-        return key is not None and ast.unparse(key) in ("attrgetter('timestamp')", "operator.attrgetter('timestamp')")
+    def getter_of(fn) -> str | None:  # type: ignore[no-untyped-def]
+        """`x` when the lambda / function only returns `<its parameter>.x`."""
+        if isinstance(fn, ast.Lambda):
+            body, a = fn.body, fn.args
+        elif isinstance(fn, (ast.FunctionDef,)):
+            st = strip_doc(fn.body)
+            if len(st) != 1 or not isinstance(st[0], ast.Return) or st[0].value is None:
+                return None
+            body, a = st[0].value, fn.args
+        else:
+            return None
+        ps = [x.arg for x in a.posonlyargs + a.args]
+        if isinstance(fn, ast.FunctionDef) and ps and ps[0] in ("self", "cls") and len(ps) == 2:
+            ps = ps[1:]
+        if len(ps) == 1 and not a.vararg and not a.kwarg and not a.kwonlyargs and isinstance(body, ast.Attribute) \
+                and isinstance(body.value, ast.Name) and body.value.id == ps[0]:
+            return body.attr
+        return None
+
+    def key_of(self, key, env: dict) -> str | None:  # type: ignore[no-untyped-def]
+        """The attribute a key function reads (`lambda s: s.x`, `attrgetter("x")`, a local / module constant bound to
+        one of those, a module function or method that only returns `<arg>.x`)."""
+        if key is None:
+            return None
+        if isinstance(key, ast.Lambda):
+            return self.getter_of(key)
+        if isinstance(key, ast.Call) and ast.unparse(key.func) in ("attrgetter", "operator.attrgetter") \
+                and len(key.args) == 1 and not key.keywords and isinstance(key.args[0], ast.Constant) \
+                and isinstance(key.args[0].value, str) and "." not in key.args[0].value:
+            return key.args[0].value
+        if isinstance(key, ast.Name):
+            v = env.get(key.id)
+            if isinstance(v, KeyFn):
+                return v.attr
+            if key.id not in env and key.id in self.functions:
+                return self.getter_of(self.functions[key.id])
+            if key.id not in env and key.id in self.constants:
+                return self.key_of(self.constants[key.id], {})
+            return None
+        if isinstance(key, ast.Attribute) and isinstance(key.value, ast.Name) and key.attr in self.methods \
+                and (key.value.id == self.clsname or (key.value.id == "self" and "self" not in env)):
+            return self.getter_of(self.methods[key.attr])
+        return None
+
+    def is_timestamp_key(self, key, env: dict | None = None) -> bool:  # type: ignore[no-untyped-def]
+        return self.key_of(key, env or {}) == "timestamp"
 
     @staticmethod
     def is_estimate(t) -> bool:  # type: ignore[no-untyped-def]
@@ -1850,6 +1909,33 @@ def resample_loop(res: ast.ClassDef, tree: ast.Module) -> str:
             f"def advanceOnError : Bool := {'true' if adv[0][0] < raise_idx[0] else 'false'}")
 
 
+def estimate_floor(stored: list) -> int:
+    """What is stored as the input period, on all paths, must be the estimate `est` or `max(est, k)` for a literal `k ≥ 0`
+    (however the clamp is written): the lower clamp `k` (0 without one)."""
+    if not stored:
+        raise Unsupported("shape of the input-period estimate")
+    t = None
+    for path, v in reversed(stored):
+        if isinstance(v, Est):
+            v = Num(V("est") if v.floor <= 0 else ("ite", ("cmp", "<", V("est"), Lit(v.floor), "Int"), Lit(v.floor), V("est")), "Int")
+        if not (isinstance(v, Num) and v.ty == "Int"):
+            raise Unsupported("shape of the input-period estimate")
+        conds = tuple(c for c in path if not (isinstance(c, tuple) and c and c[0] == "opt") and mentions(c, "est"))
+        t = v.term if t is None else ("ite", ("and", conds) if conds else TRUE, v.term, t)
+    global _PARAMS
+    _PARAMS = ["est"]
+    try:
+        tree = expand(expand(t, {}, 0, first_atoms), {})
+    finally:
+        _PARAMS = []
+    if tree == V("est"):
+        return 0
+    if tree[0] == "ite" and tree[1][0] == "cmp" and tree[1][1] == "<" and tree[1][2] == V("est") and tree[1][3][0] == "int" \
+            and tree[2] == tree[1][3] and tree[3] == V("est") and tree[1][3][1] >= 0:
+        return tree[1][3][1]
+    raise Unsupported("shape of the input-period estimate")
+
+
 def helper_parts(hel: ast.ClassDef, tree: ast.Module) -> str:
     out = []
     # --- _update_source_sample_period(now): when is the estimate NOT taken, and what is stored
@@ -1876,14 +1962,13 @@ def helper_parts(hel: ast.ClassDef, tree: ast.Module) -> str:
     guard = sym.run(body_of(fn), {now: Num(V("now"), "Int")}, target_guard)
     if not (isinstance(guard, Num) and guard.ty == "Bool"):
         raise Unsupported("guard of _update_source_sample_period not understood")
-    if not stored or not all(isinstance(v, Est) for _, v in stored) or len({v.floor for _, v in stored}) != 1:
-        raise Unsupported("shape of the input-period estimate")
+    floor = estimate_floor(stored)
     ps = ["samplingPeriod", "samplingStart", "received", "resamplingPeriod", "maxAge", "bufLen", "maxlen", "now"]
     out.append("/-- `true` = `_update_source_sample_period(now)` returns False without estimating the input period. -/\n"
                "def skipPeriodUpdate (samplingPeriod samplingStart : Option Int) (received : Nat) (resamplingPeriod : Int)\n"
                "    (maxAge : Rat) (bufLen maxlen : Nat) (now : Int) : Bool :=\n  " + normal(guard.term, ps))
     out.append("/-- Lower clamp (µs) applied to the estimated input period (0: the estimate may round down to zero). -/\n"
-               f"def minInputPeriodEstimate : Int := {stored[0][1].floor}")
+               f"def minInputPeriodEstimate : Int := {floor}")
 
     # --- _update_buffer_len: the maxlen the deque is rebuilt with
     fn = find_method(hel, "_update_buffer_len")
